@@ -75,8 +75,11 @@ class _CachedStorage(BaseStorage, BaseHeartbeat):
     def create_new_study(
         self, directions: Sequence[StudyDirection], study_name: str | None = None
     ) -> int:
-        study_id = self._backend.create_new_study(directions=directions, study_name=study_name)
         with self._lock:
+            # The cache entry of the new study is registered in the critical section of the
+            # backend call. Otherwise another thread that already found the study by its name
+            # could fill the entry, which would then be replaced by an empty one.
+            study_id = self._backend.create_new_study(directions=directions, study_name=study_name)
             study = _StudyInfo()
             study.name = study_name
             study.directions = list(directions)
